@@ -3855,6 +3855,19 @@ func (w *Wallet) reliablyPublishTransaction(tx *wire.MsgTx,
 	// on-chain. This is done outside of the database transaction to prevent
 	// backend interaction within it.
 	if err := chainClient.NotifyReceived(ourAddrs); err != nil {
+		// The hand-over to the backend could not be completed, so the
+		// transaction recorded above must be forgotten again, as
+		// otherwise its inputs stay spent and its change is counted
+		// even though the caller is told the publish failed.
+		dbErr := walletdb.Update(w.db, func(dbTx walletdb.ReadWriteTx) error {
+			txmgrNs := dbTx.ReadWriteBucket(wtxmgrNamespaceKey)
+			return w.TxStore.RemoveUnminedTx(txmgrNs, txRec)
+		})
+		if dbErr != nil {
+			log.Warnf("Unable to remove unpublished transaction "+
+				"%v: %v", tx.TxHash(), dbErr)
+		}
+
 		return nil, err
 	}
 
